@@ -19,18 +19,20 @@ theorem findPipeline_eq_find (fs : Fs) (file : List String) (dirs : List Path) :
 /-- directories of files are directories -/
 def FsOk (fs : Fs) : Prop := ∀ p, fs.isFile p = true → fs.dirExists (dirOf p) = true
 
-/-- every cached file's directory is on sys.path, and every existing directory whose
-    `add_sys_path` logic has run is on sys.path -/
-structure Good (fs : Fs) (st : LoadState) : Prop where
+/-- every cached file's directory is on sys.path, and every directory whose `add_sys_path` logic has
+    run and that was not absent when last looked at is on sys.path. Says nothing about any file
+    system: it survives every change of the file system between loads. -/
+structure Good (st : LoadState) : Prop where
   cached : ∀ p ∈ st.fileCache, dirOf p ∈ st.sysPath
-  known : ∀ d ∈ st.known, fs.dirExists d = true → d ∈ st.sysPath
+  known : ∀ d ∈ st.known, d ∉ st.missing → d ∈ st.sysPath
 
-theorem addSysPath_mem (fs : Fs) (st : LoadState) (d : Path) (hg : ∀ d ∈ st.known, fs.dirExists d = true → d ∈ st.sysPath)
+theorem addSysPath_mem (fs : Fs) (st : LoadState) (d : Path) (hg : ∀ d ∈ st.known, d ∉ st.missing → d ∈ st.sysPath)
     (hd : fs.dirExists d = true) : d ∈ (addSysPath fs st d).sysPath := by
   unfold addSysPath
   split
-  · rename_i hk; exact hg d hk hd
-  · split <;> simp_all
+  · rename_i hk; exact hg d hk.1 hk.2
+  · simp only
+    split <;> simp_all
 
 theorem addSysPath_mono (fs : Fs) (st : LoadState) (d x : Path) (hx : x ∈ st.sysPath) :
     x ∈ (addSysPath fs st d).sysPath := by
@@ -48,17 +50,33 @@ theorem addSysPath_fileCache (fs : Fs) (st : LoadState) (d : Path) :
   split <;> rfl
 
 theorem addSysPath_known (fs : Fs) (st : LoadState) (d : Path)
-    (hg : ∀ d ∈ st.known, fs.dirExists d = true → d ∈ st.sysPath) :
-    ∀ x ∈ (addSysPath fs st d).known, fs.dirExists x = true → x ∈ (addSysPath fs st d).sysPath := by
-  intro x hx hex
-  by_cases hxd : x = d
-  · subst hxd; exact addSysPath_mem fs st x hg hex
-  · apply addSysPath_mono
-    apply hg x _ hex
-    unfold addSysPath at hx
-    split at hx
-    · exact hx
-    · split at hx <;> simp_all
+    (hg : ∀ d ∈ st.known, d ∉ st.missing → d ∈ st.sysPath) :
+    ∀ x ∈ (addSysPath fs st d).known, x ∉ (addSysPath fs st d).missing → x ∈ (addSysPath fs st d).sysPath := by
+  intro x hx hm
+  unfold addSysPath at hx hm ⊢
+  split
+  · rename_i hk; simp only [hk] at hx hm; exact hg x hx hm
+  · rename_i hk
+    simp only [hk, if_false] at hx hm
+    split
+    · rename_i hd
+      simp only [hd, if_true] at hx hm
+      by_cases hxd : x = d
+      · subst hxd; split <;> simp_all
+      · have hx' : x ∈ st.known := by simpa [hxd] using hx
+        have hm' : x ∉ st.missing := by
+          intro h; apply hm; simp [List.mem_filter, h, hxd]
+        have := hg x hx' hm'
+        simp only; split <;> simp_all
+    · rename_i hd
+      simp only [hd] at hx hm
+      simp only [Bool.false_eq_true, if_false] at hx hm
+      by_cases hxd : x = d
+      · subst hxd; simp at hm
+      · have hx' : x ∈ st.known := by simpa [hxd] using hx
+        have hm' : x ∉ st.missing := by
+          intro h; apply hm; simp [h]
+        exact hg x hx' hm'
 
 theorem getPipelinePath_isFile (fs : Fs) (name : Name) (parent : Option Path) (p : Path)
     (h : getPipelinePath fs name parent = .ok p) : fs.isFile p = true := by
